@@ -22,7 +22,7 @@ import vlib
 PROPS = "Properties_C10"
 # leaf functions / constants of path.c are re-translated from the C source on every run (tools/translate_leaf.py ->
 # coq/gen/Leaf.v, Constants.v) and re-proved equal to the model's (coq/Properties_leaf_path.v)
-EXTRA_PROPS = ["Properties_leaf_path"]
+EXTRA_PROPS = ["Properties_leaf_path", "Properties_C10_win"]
 
 
 def REGEN(ctx):
@@ -33,7 +33,9 @@ RULE = ("every string over {'/','.','a','b'} up to length 7 (quick) / 10 plus ev
         "length 11 (thorough), random strings up to length 300 over separator/dot-heavy byte alphabets (bytes 1..255), "
         "pattern strings (separator runs x dot names), NULL for the queries, and rewritten-buffer pairs (every ordered "
         "pair of strings up to length 3 (quick) / 4 (thorough) over the same alphabet + random longer pairs); non-trivial = a string containing a "
-        "separator or a dot; distinct case strings counted")
+        "separator or a dot; distinct case strings counted.  W cases (path.c built with -D_WIN32, judged by the "
+        "extracted PathWinSpec only): every string over {/ \\ : C a .} up to length 5 (quick) / 7 (thorough), every byte "
+        "in front of a colon with four tails, random strings with drive and network root names")
 ASSUMPTIONS = [
     "64-bit size_t and full-width index fields (ZixIndexRange.begin/end, ZixStringView.length) are asserted at "
     "compile time by the driver and exercised by strings of 2^32 + k bytes (1 in quick, 8 in thorough); if the "
@@ -64,7 +66,7 @@ def bytes_of(case):
         return b"x/" + (b"" if t[2] == "-" else bytes.fromhex(t[2]))
     if t[0] == "Q":
         return b"\0".join(b"" if h == "-" else bytes.fromhex(h) for h in t[1:3])
-    if t[0] != "P" or t[1] == "-":
+    if t[0] not in ("P", "W") or t[1] == "-":
         return b""
     return bytes.fromhex(t[1])
 
@@ -146,6 +148,16 @@ def build(ctx):
                          out=ctx.path("drv_c10_O0"))
     except vlib.BuildError:
         pass
+    # the Windows configuration of path.c (plain C: it compiles here with -D_WIN32): W cases, judged by the
+    # extracted PathWinSpec (spec only: those branches have no Coq model)
+    try:
+        obj = ctx.path("path_win.o")
+        ctx.cc(ctx.repo_src("path.c"), obj, flags=["-D_WIN32"], link=False)
+        ctx.cc([os.path.join(vlib.HARNESS, "drv_c10.c"), obj] + ctx.repo_src("string_view.c", "allocator.c"),
+               ctx.path("drv_c10_win"), flags=["-DC10_WIN", "-DC10_NO_LAYOUT_ASSERT"])
+    except vlib.BuildError as e:
+        ctx.broken.append("correspondence:C10 the Windows configuration of path.c (-D_WIN32) no longer builds here: "
+                          + str(e)[-300:].replace("\n", " "))
     # the > 4 GiB string runs in its own, NOT sanitized binary
     ctx.cc([os.path.join(vlib.HARNESS, "big_c10.c")] + ctx.repo_src("path.c", "string_view.c", "allocator.c"),
            ctx.path("big_c10"), flags=["-O2"], sanitize=False)
@@ -284,11 +296,35 @@ def _big_expected(small_line, n, filler):
     return res
 
 
+WIN_ALPHA = [0x2f, 0x5c, 0x3a, 0x43, 0x61, 0x2e]       # / \ : C a .
+
+
+def win_cases(r, tier, random_only=False):
+    """strings for the Windows configuration: exhaustive over {/ \\ : C a .} (length <= 5 quick, 7 thorough), every
+    byte in front of a colon, and random longer ones with drive and network root names"""
+    out = []
+    if not random_only:
+        for n in range(0, (8 if tier == "thorough" else 6)):
+            for t in itertools.product(WIN_ALPHA, repeat=n):
+                out.append("W " + (bytes(t).hex() or "-"))
+        for c in range(1, 256):
+            for tail in (b":", b":x", b":/x", b":\\x.y"):
+                out.append("W " + (bytes([c]) + tail).hex())
+    segs = [b"", b".", b"..", b"a", b"b.c", b".d", b"e.", b"C:", b"c:", b"host", b"x:y", b"_:", b"1:"]
+    for _ in range(3000 if tier == "thorough" else 600):
+        pre = r.choice([b"", b"", b"C:", b"z:", b"//host", b"\\\\srv", b"/\\h", b"///", b"\\", b"_:", b"C:C:"])
+        body = b""
+        for _ in range(r.randint(0, 5)):
+            body += r.choice([b"/", b"\\", b"//", b"\\/", b""]) + r.choice(segs)
+        out.append("W " + ((pre + body + r.choice([b"", b"/", b"\\"])).hex() or "-"))
+    return out
+
+
 def gen(ctx, seed, tier):
     r = ctx.rng("gen", seed)
     if seed != ctx.seed:                      # extra seeds of the search: the random part only
-        return rand_cases(r, 4000, 300) + pair_cases(r, 1, 2000)
-    cases = ["N"]
+        return rand_cases(r, 4000, 300) + pair_cases(r, 1, 2000) + win_cases(r, tier, random_only=True)
+    cases = ["N"] + win_cases(r, tier)
     if tier == "thorough":
         cases += list(enum(ALPHA4, 0, 10))
         cases += list(enum(ALPHA3, 11, 11))
@@ -321,6 +357,33 @@ def run_impl(ctx, cases):
     """the driver flushes every completed line, so after a crash (ASan/UBSan report, signal) the number of
     lines received tells which case was being processed; that case gets a CRASH line and the run resumes
     behind it (at most 100 times, then the rest is marked)"""
+    if any(c.startswith("W ") for c in cases):
+        widx = [i for i, c in enumerate(cases) if c.startswith("W ")]
+        ws = set(widx)
+        rest = iter(run_impl(ctx, [c for i, c in enumerate(cases) if i not in ws]))
+        wout = []
+        todo = ["P" + cases[i][1:] for i in widx]
+        restarts = 0
+        exe = ctx.path("drv_c10_win")
+        while todo:
+            if not os.path.exists(exe):
+                wout += ["CRASH no Windows-configuration driver"] * len(todo)
+                break
+            rc, o, err = ctx.run_lines([exe], todo, timeout=1200)
+            o = o[:len(todo)]
+            wout += o
+            todo = todo[len(o):]
+            if not todo:
+                break
+            first = [l for l in err.split("\n") if "ERROR" in l or "runtime error" in l]
+            wout.append("CRASH rc=%d %s" % (rc, " ".join((first[0] if first else "").split()[1:4])))
+            todo = todo[1:]
+            restarts += 1
+            if restarts > 50:
+                wout += ["CRASH rc=%d (too many restarts)" % rc] * len(todo)
+                break
+        wit = iter(wout)
+        return [next(wit) if i in ws else next(rest) for i in range(len(cases))]
     if any(c.startswith("B ") for c in cases):
         small = [c for c in cases if not c.startswith("B ")]
         small_out = iter(run_impl(ctx, small) if small else [])
@@ -418,25 +481,30 @@ def run_model(ctx, cases):
         else:
             r = ctx.rng("oracle", len(cases))
             sample = sorted(r.sample(range(len(cases)), min(len(cases), 6000)))
+        sample = [i for i in sample if not cases[i].startswith("W ")]   # libstdc++ here parses the POSIX format only
         _oracle(ctx, [cases[i] for i in sample], [ss[i] for i in sample])
     return ms, ss
 
 
 def nontrivial(c):
     b = bytes_of(c)
-    return (b"/" in b) or (b"." in b)
+    return (b"/" in b) or (b"." in b) or (c.startswith("W ") and (b"\\" in b or b":" in b))
 
 
 def tokens(case):
     if case == "N" or case.startswith("Q ") or case.startswith("B "):
         return [case]                      # not shrunk
+    if case.startswith("W "):
+        return ["W"] + ["%02x" % b for b in bytes_of(case)]
     return ["%02x" % b for b in bytes_of(case)]
 
 
 def untokens(toks):
     if len(toks) == 1 and (toks[0] == "N" or toks[0][:2] in ("Q ", "B ")):
         return toks[0]
-    return "P " + ("".join(toks) or "-")
+    if toks and toks[0] == "W":
+        return "W " + ("".join(toks[1:]) or "-")
+    return "P " + ("".join(t for t in toks if t != "W") or "-")
 
 
 def stats(cases, impl):
